@@ -426,7 +426,8 @@ type hist struct {
 	addrs   []string
 	keys    map[string][]byte
 	nlabel  int
-	lastSp  string // "", "ok", "failed"
+	badKeys map[string][]byte // label -> key of records injected with an empty Addr
+	lastSp  string            // "", "ok", "failed"
 	nchecks int
 }
 
@@ -569,6 +570,28 @@ func (h *hist) opAdd(r *gen.Rand, keylen int, legacy bool, derived bool) {
 	out.Stat("hist_add_"+f, 1)
 }
 
+// opAddBad writes, behind the wallet's back, an Account record whose Addr is EMPTY (the wallet itself never does:
+// GetAccountByte refuses it). ProcWalletSetPasswd only logs the error of SetWalletAccountInBatch for such a record and
+// goes on — the record stays under the old password (Lean: malformed_record_is_left_behind).
+func (h *hist) opAddBad(r *gen.Rand) {
+	h.nlabel++
+	label := fmt.Sprintf("bad%d", h.nlabel)
+	key := r.Bytes(h.keylen)
+	rec := &types.WalletAccountStore{
+		Privkey:   common.ToHex(wcom.CBCEncrypterPrivkey([]byte(h.pw), key)),
+		Label:     label,
+		TimeStamp: fmt.Sprintf("%018d", 1000000+h.nlabel),
+	}
+	err := h.e.w.GetDBStore().SetSync(wcom.CalcAccountKey(rec.TimeStamp, ""), types.Encode(rec))
+	if err != nil {
+		out.Op(fmt.Sprintf("w.addbad %d", h.keylen), "err:"+err.Error())
+		return
+	}
+	h.badKeys[label] = key
+	out.Op(fmt.Sprintf("w.addbad %d", h.keylen), "ok")
+	out.Stat("hist_addbad", 1)
+}
+
 func (h *hist) opSetPasswd(r *gen.Rand) {
 	old := h.pw
 	oldOk := r.Chance(3, 4)
@@ -643,12 +666,20 @@ func (h *hist) opCheck(r *gen.Rand) {
 		}
 		out.Pred(sig, fmt.Sprintf("sign=%s %s", h.sign, detail))
 	}
-	if len(accs) != len(h.addrs) {
+	if len(accs) != len(h.addrs)+len(h.badKeys) {
 		bad("account-list", fmt.Sprintf("%d accounts stored, %d created", len(accs), len(h.addrs)))
 	}
 	for _, a := range accs {
 		blob, _ := common.FromHex(a.Privkey)
 		lens = append(lens, len(blob))
+		if a.Addr == "" {
+			// an injected malformed record: no request can name it; it only enters the compared `dec` bit
+			if dec, p := guardBytes(func() []byte { return wcom.CBCDecrypterPrivkey([]byte(curpw), blob) }); p || !bytes.Equal(dec, h.badKeys[a.Label]) {
+				good = false
+				out.Stat("hist_malformed_record_left_behind", 1)
+			}
+			continue
+		}
 		want, ok := h.keys[a.Addr]
 		if !ok {
 			bad("key", "unknown account "+a.Addr)
@@ -683,7 +714,7 @@ func (h *hist) opCheck(r *gen.Rand) {
 
 func history(r *gen.Rand, sign string, steps int) {
 	dir := filepath.Join(tmpRoot, fmt.Sprintf("h%d", r.U64()%1000000))
-	h := &hist{e: newEnv(dir, sign), sign: sign, keys: map[string][]byte{}}
+	h := &hist{e: newEnv(dir, sign), sign: sign, keys: map[string][]byte{}, badKeys: map[string][]byte{}}
 	defer h.e.close()
 	h.signID = crypto.GetType(sign)
 	c, err := crypto.Load(sign, -1)
@@ -695,7 +726,12 @@ func history(r *gen.Rand, sign string, steps int) {
 	h.keylen = len(k.Bytes())
 	h.opInit(r, r.Chance(1, 2))
 	h.opCheck(r)
+	withBad := r.Chance(1, 3)
 	for i := 0; i < steps; i++ {
+		if withBad && r.Chance(1, 10) {
+			h.opAddBad(r)
+			continue
+		}
 		switch r.Pick(5, 2, 6, 4) {
 		case 0:
 			h.opAdd(r, h.keylen, r.Chance(1, 2), r.Chance(1, 2))
